@@ -1,74 +1,19 @@
 (* Model-side driver: reads the same case lines as the Rust harness, runs the extracted Coq model, prints the same
-   canonical format. usage: driver <engine> *)
-open Model
-
-let rec pos_of_int (i : int) : positive =
-  if i = 1 then XH else if i land 1 = 0 then XO (pos_of_int (i lsr 1)) else XI (pos_of_int (i lsr 1))
-let n_of_int (i : int) : n = if i = 0 then N0 else Npos (pos_of_int i)
-let rec int_of_pos = function XH -> 1 | XO p -> 2 * int_of_pos p | XI p -> 2 * int_of_pos p + 1
-let int_of_n = function N0 -> 0 | Npos p -> int_of_pos p
-let rec nat_of_int (i : int) : nat = if i <= 0 then O else S (nat_of_int (i - 1))
-let int_of_nat (n : nat) : int = let rec go acc = function O -> acc | S m -> go (acc + 1) m in go 0 n
-
-let unhex (s : string) : n list =
-  if s = "." || s = "" then [] else begin
-    let l = String.length s / 2 in
-    List.init l (fun i -> n_of_int (int_of_string ("0x" ^ String.sub s (2 * i) 2)))
-  end
-let hex (bs : n list) : string =
-  if bs = [] then "." else String.concat "" (List.map (fun b -> Printf.sprintf "%02x" (int_of_n b)) bs)
-
-let join sep l = if l = [] then "-" else String.concat sep l
-let split_on c s = if s = "" then [] else String.split_on_char c s
-let split_once c s =
-  match String.index_opt s c with
-  | None -> (s, "")
-  | Some i -> (String.sub s 0 i, String.sub s (i + 1) (String.length s - i - 1))
-
-let ctl_str = function
-  | Backspace -> "BS" | Down -> "DN" | Enter -> "EN" | Back -> "BK" | Forward -> "FW" | Tab -> "TB" | Up -> "UP"
-
-let dec line =
-  let (_, evs) = runa ig0 (unhex line) in
-  join " " (List.map (function Ctl c -> ctl_str c | Chr s -> "c:" ^ hex s) evs)
-
-let u8 line =
-  let (_, cs) = run acc0 (unhex line) in
-  join " " (List.map hex cs)
-
-let ev_str = function Ctl c -> ctl_str c | Chr s -> "c:" ^ hex s
-
-(* decu: a list of key units; prints REJECT when the list is not well-formed/greedy, else "<bytes> <events>" *)
-let parse_unit (t : string) : unit_ =
-  let rest k = String.sub t k (String.length t - k) in
-  if t = "bs" then UBS else if t = "tab" then UTab
-  else if t = "tcr" then UTerm TCR else if t = "tlf" then UTerm TLF
-  else if t = "tcrlf" then UTerm TCRLF else if t = "tlfcr" then UTerm TLFCR
-  else if String.length t > 3 && String.sub t 0 3 = "csi" then
-    let (ps, f) = split_once ':' (rest 3) in
-    UCsi (unhex ps, List.hd (unhex f))
-  else if String.length t > 3 && String.sub t 0 3 = "ign" then UIgn (List.hd (unhex (rest 3)))
-  else if t.[0] = 'c' then UChar (unhex (rest 1))
-  else failwith ("unit " ^ t)
-
-let decu line =
-  let us = List.map parse_unit (split_on ' ' line) in
-  if not (List.for_all wf_unitb us && greedyb N0 us) then "REJECT"
-  else hex (List.concat_map bytes_of us) ^ " " ^ join " " (List.map ev_str (List.concat_map events_of us))
-
+   canonical format. usage: driver <engine> [featset]   featset = letters of h (history) a (autocomplete) c (help) or "none" *)
 let () =
   let engine = Sys.argv.(1) in
-  let f = match engine with
-    | "dec" -> dec
-    | "u8" -> u8
-    | "decu" -> decu
-    | _ -> Engines.dispatch engine in
+  if Array.length Sys.argv > 2 then begin
+    let fs = Sys.argv.(2) in
+    let has c = fs <> "none" && String.contains fs c in
+    Engines.feats := { Model.f_hist = has 'h'; f_ac = has 'a'; f_help = has 'c' }
+  end;
+  let f = Engines.dispatch engine in
   try
     while true do
       let line = input_line stdin in
       let line = String.trim line in
       if line <> "" then begin
-        (try print_string (f line) with Engines.Model_none -> print_string "NONE");
+        (try print_string (f line) with Util.Model_none -> print_string "NONE");
         print_newline ()
       end
     done
